@@ -124,7 +124,7 @@ def _resolve_core(s, tenv):
         return TD('void')
     if s in ('auto', 'decltype(auto)'):
         return TD('auto')
-    if s in ('std::string', 'string', 'std::basic_string<char>'):
+    if s in ('std::string', 'string', 'std::basic_string<char>') or s.endswith('basic_string<char>>::value_type') or s == 'std::vector<std::string>::value_type':
         return TD('string')
     if s in ('std::stringstream', 'stringstream'):
         return TD('sstream')
@@ -146,6 +146,8 @@ def _resolve_core(s, tenv):
     m = re.fullmatch(r'(?:std::)?vector<(.*)>', s)
     if m:
         a = split_targs(m.group(1))
+        if 'string' in a[0]:
+            return TD('countvec')
         inner = resolve(a[0], tenv)
         if inner.kind in ('real', 'int'):
             return TD('stdvec', elem=inner.kind)
